@@ -27,16 +27,17 @@ var externalAssumptions = map[string]string{
 	"fmt.Printf":              "writes to stdout only; no program state modified",
 	"errors.New":              "returns a fresh non-nil error",
 	"strconv.Itoa":            "pure; returns some string",
-	"strconv.Atoi":            "pure; returns (some int, some error)",
-	"strconv.ParseFloat":      "pure; returns (some float64, some error)",
+	"strconv.Atoi":            "pure and deterministic: (value, error) are functions of the argument string only",
+	"strconv.ParseFloat":      "pure and deterministic: (value, error) are functions of the argument string (bitSize 64) only",
 	"strconv.FormatBool":      "pure; returns some string",
-	"strings.ReplaceAll":      "pure; returns some string",
+	"strings.ReplaceAll":      "pure; for constant old/new with 1 <= len(new) <= len(old): len(result) <= len(s); if additionally len(s) >= 2 and s[0] != old[0] then len(result) >= 2 and result[0] == s[0] (the first byte cannot start a match, the non-empty rest maps to a non-empty string)",
 	"strings.Contains":        "pure; for a constant set and a one-byte needle: membership of the byte in the set",
 	"strings.Count":           "pure; returns a non-negative int",
 	"strings.Index":           "pure; returns -1 or an index i with 0 <= i <= len(s)-len(sep)",
 	"strings.LastIndex":       "pure; returns -1 or an index i with 0 <= i <= len(s)-len(sep)",
 	"strings.Repeat":          "panics on negative count; otherwise returns a string of length len(s)*count",
 	"strings.NewReader":       "returns a fresh reader positioned at 0 over s",
+	"strings.(*Reader).ReadRune": "at position i < len(s): returns (ch, size, nil) with 1 <= size <= 4, i+size <= len(s), advances i by size; ch < 0x80 iff s[i] < 0x80, and then size == 1 and ch == s[i]; at i >= len(s): returns (0, 0, non-nil error), reader unchanged",
 	"slices.Contains":         "pure; returns some bool",
 }
 
@@ -87,10 +88,18 @@ func (e *Engine) external(key string, fn *ssa.Function) extFn {
 		return extNewError
 	case "strings.NewReader":
 		return extNewReader
+	case "strings.(*Reader).ReadRune":
+		return extReadRune
 	case "strings.Contains":
 		return extStringsContains
 	case "strings.Repeat":
 		return extStringsRepeat
+	case "strings.ReplaceAll":
+		return extStringsReplaceAll
+	case "strconv.Atoi":
+		return extAtoi
+	case "strconv.ParseFloat":
+		return extParseFloat
 	case "strings.Index", "strings.LastIndex":
 		return extStringsIndex
 	case "strings.Count":
@@ -221,6 +230,132 @@ func extNewReader(x *Exec, fr *Frame, st *State, fn *ssa.Function, args []*SV, s
 	if fr.pure {
 		unsupportedf("strings.NewReader in pure evaluation")
 	}
+	w := x.w
+	rt := fn.Signature.Results().At(0).Type().(*types.Pointer).Elem()
 	r := x.newRef(st)
+	p := &Ptr{Ref: r, Base: rt}
+	strct := rt.Underlying().(*types.Struct)
+	rec := w.RecordOfType(rt)
+	v := w.Zero(rt)
+	for i := 0; i < strct.NumFields(); i++ {
+		switch strct.Field(i).Name() {
+		case "s":
+			v = rec.Set(v, i, x.svTerm(args[0]))
+		case "prevRune":
+			v = rec.Set(v, i, IntLit(-1, rec.Fields[i].Sort))
+		}
+	}
+	x.Store(fr, st, p, v)
 	k(st, fr, TV(r))
+}
+
+func extReadRune(x *Exec, fr *Frame, st *State, fn *ssa.Function, args []*SV, site ssa.Instruction, k callK) {
+	if fr.pure {
+		unsupportedf("ReadRune in pure evaluation")
+	}
+	w := x.w
+	p := args[0].P
+	if p == nil {
+		p = x.ptrFromTerm(args[0].T, fn.Signature.Recv().Type())
+	}
+	rt := fn.Signature.Recv().Type().(*types.Pointer).Elem()
+	strct := rt.Underlying().(*types.Struct)
+	rec := w.RecordOfType(rt)
+	cur := x.Load(fr, st, p)
+	si, ii := -1, -1
+	for i := 0; i < strct.NumFields(); i++ {
+		switch strct.Field(i).Name() {
+		case "s":
+			si = i
+		case "i":
+			ii = i
+		}
+	}
+	s, pos := rec.Get(cur, si), rec.Get(cur, ii)
+	posIS := pos
+	if pos.Sort != w.IS {
+		posIS = x.convInt(pos, strct.Field(ii).Type(), types.Typ[types.Int])
+	}
+	res := fn.Signature.Results()
+	chS := w.SortOf(res.At(0).Type())
+	atEnd := w.Le(w.SLen(s), posIS)
+	// end of input: (0, 0, err)
+	st1, fr1 := st.clone(), fr.clone()
+	st1.assume(atEnd)
+	if x.feasible(st1) {
+		e := w.Fresh("eof", SIfc)
+		st1.assume(Not(Eq(w.iface.Get(e, 0), IntLit(0, SInt))))
+		k(st1, fr1, &SV{Tuple: []*SV{TV(IntLit(0, chS)), TV(w.Int(0)), TV(e)}})
+	}
+	st.assume(Not(atEnd))
+	if !x.feasible(st) {
+		return
+	}
+	st.assume(w.Le(w.Int(0), posIS))
+	ch := w.Fresh("rune", chS)
+	size := w.Fresh("size", w.IS)
+	b := App("sat", w.byteSort(), s, posIS)
+	b32 := b
+	if chS != b.Sort {
+		b32 = App("(_ zero_extend 24)", chS, b)
+	}
+	lim := IntLit(0x80, chS)
+	lt := func(a, c *Term) *Term {
+		if a.Sort == SInt {
+			return App("<", SBool, a, c)
+		}
+		return App("bvult", SBool, a, c)
+	}
+	st.assume(And(w.Le(w.Int(1), size), w.Le(size, w.Int(4)), w.Le(w.Add(posIS, size), w.SLen(s)),
+		Eq(lt(ch, lim), lt(b32, lim)), Imp(lt(b32, lim), And(Eq(size, w.Int(1)), Eq(ch, b32))),
+		w.Le(IntLit(0, chS), ch)))
+	if w.Mode == "int" {
+		st.assume(And(App("<=", SBool, IntLit(0, SInt), b), App("<=", SBool, b, IntLit(255, SInt)), App("<=", SBool, ch, IntLit(0x10FFFF, SInt))))
+	}
+	newPos := w.Add(posIS, size)
+	np := newPos
+	if pos.Sort != w.IS {
+		np = x.convInt(newPos, types.Typ[types.Int], strct.Field(ii).Type())
+	}
+	x.Store(fr, st, p.with(PathStep{Field: ii, T: strct.Field(ii).Type()}), np)
+	k(st, fr, &SV{Tuple: []*SV{TV(ch), TV(size), TV(w.Zero(res.At(2).Type()))}})
+}
+
+func extStringsReplaceAll(x *Exec, fr *Frame, st *State, fn *ssa.Function, args []*SV, site ssa.Instruction, k callK) {
+	w := x.w
+	s, old, nw := x.svTerm(args[0]), x.svTerm(args[1]), x.svTerm(args[2])
+	r := w.Fresh("replaced", SStr)
+	var oldLit, newLit string
+	okO, okN := false, false
+	for lit, t := range w.strLits {
+		if t.String() == old.String() {
+			oldLit, okO = lit, true
+		}
+		if t.String() == nw.String() {
+			newLit, okN = lit, true
+		}
+	}
+	if okO && okN && len(newLit) >= 1 && len(newLit) <= len(oldLit) {
+		st.assume(w.Le(w.SLen(r), w.SLen(s)))
+		first := App("sat", w.byteSort(), s, w.Int(0))
+		st.assume(Imp(And(w.Le(w.Int(2), w.SLen(s)), Not(Eq(first, IntLit(int64(oldLit[0]), w.byteSort())))),
+			And(w.Le(w.Int(2), w.SLen(r)), Eq(App("sat", w.byteSort(), r, w.Int(0)), first))))
+	}
+	k(st, fr, TV(r))
+}
+
+func extAtoi(x *Exec, fr *Frame, st *State, fn *ssa.Function, args []*SV, site ssa.Instruction, k callK) {
+	w := x.w
+	w.declFun("atoi_val", "(Str) "+string(w.IS))
+	w.declFun("atoi_err", "(Str) Iface")
+	s := x.svTerm(args[0])
+	k(st, fr, &SV{Tuple: []*SV{TV(App("atoi_val", w.IS, s)), TV(App("atoi_err", SIfc, s))}})
+}
+
+func extParseFloat(x *Exec, fr *Frame, st *State, fn *ssa.Function, args []*SV, site ssa.Instruction, k callK) {
+	w := x.w
+	w.declFun("pfloat_val", "(Str) "+string(SF64))
+	w.declFun("pfloat_err", "(Str) Iface")
+	s := x.svTerm(args[0])
+	k(st, fr, &SV{Tuple: []*SV{TV(App("pfloat_val", SF64, s)), TV(App("pfloat_err", SIfc, s))}})
 }
